@@ -236,12 +236,22 @@ def judge(inst):
     inp = synth.read_bam(bam)
     # ---- conservation
     if region:
-        # chrA:90-150 -> [89, 150): 1-based closed intervals; an alignment belongs to the output iff it overlaps one
-        ivs = []
+        # chrA:90-150 -> [89, 150): 1-based closed intervals; a bare contig name selects the whole contig.  An alignment
+        # belongs to the output iff it overlaps a region of its contig; the output keeps the order of the input
+        # whatever the order in which the regions are named
+        ivs = []  # intervals on chrA (the contig with variants)
+        sel = []
         for spec in region:
-            a_, b_ = spec.split(":")[1].split("-")
-            ivs.append((int(a_) - 1, int(b_)))
-        keep = [i for i, r in enumerate(inp) if r["tid"] == 0 and any(r["start"] < hi and _end(r) > lo for lo, hi in ivs)]
+            if ":" in spec:
+                c_, rest = spec.split(":")
+                a_, b_ = rest.split("-")
+                sel.append((c_, int(a_) - 1, int(b_)))
+            else:
+                sel.append((spec, 0, 10**9))
+            if sel[-1][0] == "chrA":
+                ivs.append(sel[-1][1:])
+        tids = {"chrA": 0, "chrB": 1}
+        keep = [i for i, r in enumerate(inp) if r["tid"] >= 0 and any(tids[c_] == r["tid"] and r["start"] < hi and _end(r) > lo for c_, lo, hi in sel)]
     else:
         keep = list(range(len(inp)))
     exp = [inp[i] for i in keep]
@@ -250,8 +260,8 @@ def judge(inst):
         return viols, False
     for o, e in zip(out, exp):
         if strip(o) != strip(e):
-            viols.append(V("conservation", f"alignment {e['name']} changed or reordered: {strip(o)} vs {strip(e)}"))
-            break
+            viols.append(V("conservation", f"alignment {e['name']} changed or reordered: {strip(o)} vs {strip(e)}"[:700]))
+            return viols, False  # the rest pairs output and input alignments by position
     # ---- decision rule
     sets1 = design["sets"]
     in_region = [True] * 4 if not region else [any(lo <= p < hi for lo, hi in ivs) for p in POS]
@@ -485,6 +495,9 @@ def option_vectors(T):
         {"ignore_read_groups": True, "given_samples": ["S1"]},
         {"linked_read_distance_cutoff": 50},
         {"regions": ["chrA:50-110", "chrA:111-200"]},
+        # regions named against the order of the input: contigs reversed, intervals of one contig reversed
+        {"regions": ["chrB", "chrA"]},
+        {"regions": ["chrA:111-200", "chrA:50-110"]},
     ]
     if T:
         ov += [{"tag_supplementary": True, "ignore_linked_read": True}, {"regions": ["chrA:90-150"], "tag_supplementary": True}, {"use_reference": False, "ignore_read_groups": True, "given_samples": ["S1"]}]
